@@ -101,6 +101,11 @@ def ver_of(o) -> Any:
     return o.get_referable("v").value
 
 
+def translate(ctx: C.Ctx) -> List[str]:
+    from props import c14
+    return c14.translate_backends(ctx)
+
+
 # -------------------------------------------------------------------------------------------------------- tracing
 
 class Tracer:
